@@ -705,7 +705,19 @@ class Executor:
             env[t.id] = v
         elif isinstance(t, (ast.Tuple, ast.List)):
             items = self.iter_concrete(v)
-            if len(items) != len(t.elts):
+            stars = [i for i, e_ in enumerate(t.elts) if isinstance(e_, ast.Starred)]
+            if len(stars) == 1 and len(items) >= len(t.elts) - 1:
+                # (a, b, *rest) = items : the starred name takes the (concrete-length) remainder as a list
+                i = stars[0]
+                after = len(t.elts) - i - 1
+                mid = items[i:len(items) - after]
+                for a, b in zip(t.elts[:i], items[:i]):
+                    self.assign(a, b, env)
+                self.assign(t.elts[i].value, PList(list(mid)), env)
+                for a, b in zip(t.elts[i + 1:], items[len(items) - after:]):
+                    self.assign(a, b, env)
+                return
+            if stars or len(items) != len(t.elts):
                 raise Unsupported("unpack length mismatch")
             for a, b in zip(t.elts, items):
                 self.assign(a, b, env)
